@@ -375,8 +375,8 @@ theorem launch_later (f : Faults) (co : CreateOutcome) (c : Ctx) : Later c.w.cla
 
 theorem registerOne_claim (sp : Spec) (f : Faults) (c : Ctx) (n : Node) : (registerOne sp f c n).w.claim = c.w.claim := by
   unfold registerOne; simp only []
-  split; · simp [regSuccess]
-  split <;> simp [regSuccess]
+  split; · simp
+  split <;> simp
 
 theorem registration_claim (sp : Spec) (f : Faults) (c : Ctx) : (registration sp f c).w.claim = c.w.claim := by
   unfold registration
@@ -401,14 +401,17 @@ theorem initialization_claim (sp : Spec) (f : Faults) (c : Ctx) : (initializatio
   split; · simp
   exact initOne_claim f c _
 
+theorem timeoutDelete_later (f : Faults) (c : Ctx) : Later c.w.claim (timeoutDelete f c).w.claim := by
+  unfold timeoutDelete; simp only []
+  split; · simpa using Later.refl c.w.claim
+  have := deleteClaim_later f (poolHealth f c).1
+  split <;> simpa using this
+
 theorem livenessLaunch_later (f : Faults) (c : Ctx) : Later c.w.claim (livenessLaunch f c).1.w.claim := by
   unfold livenessLaunch
   split; · exact Later.refl _
   split; · exact Later.refl _
-  simp only []
-  have := deleteClaim_later f c
-  split; · exact this
-  split <;> simpa using this
+  exact timeoutDelete_later f c
 
 theorem liveness_later (f : Faults) (c : Ctx) : Later c.w.claim (liveness f c).w.claim := by
   unfold liveness
@@ -417,10 +420,7 @@ theorem liveness_later (f : Faults) (c : Ctx) : Later c.w.claim (liveness f c).w
   have h1 := livenessLaunch_later f c
   split; · exact h1
   split; · simpa using h1
-  have h2 := deleteClaim_later f (livenessLaunch f c).1
-  split
-  · exact h1.trans h2
-  · exact h1.trans (by simpa using h2)
+  exact h1.trans (timeoutDelete_later f (livenessLaunch f c).1)
 
 theorem merge_later (stored mem a : Claim) : Later a (mergeMeta stored mem a) ∧
     Later a (mergeStatus stored mem (mergeMeta stored mem a)) := by
@@ -517,9 +517,9 @@ theorem launch_NF (f : Faults) (co : CreateOutcome) (c : Ctx) (h : NF c) : NF (l
 theorem registerOne_errs (sp : Spec) (f : Faults) (c : Ctx) (n : Node) :
     (c.errs = true → (registerOne sp f c n).errs = true) ∧ (NF c → NF (registerOne sp f c n)) := by
   unfold registerOne; simp only []
-  split; · simp [regSuccess, NF]
+  split; · exact ⟨regSuccess_errs f c, fun h => NF_of_append (by simp) ⟨poolCalls f, by simp⟩ h⟩
   split
-  · refine ⟨by simp [regSuccess], fun h => NF_of_append (by simp [regSuccess]) ⟨_, by simp [regSuccess]; rfl⟩ h⟩
+  · refine ⟨fun h => regSuccess_errs f _ (by simpa using h), fun h => NF_of_append (by simp) ⟨[⟨.nodePatchLock, .ok⟩] ++ poolCalls f, by simp⟩ h⟩
   · refine ⟨by simp, fun h => NF_of_append (c := c) (by simp) ⟨[⟨.nodePatchLock, .conflict⟩], by simp⟩ h⟩
   · exact ⟨by simp, fun _ _ => ⟨⟨.nodePatchLock, .notFound⟩, by simp, rfl⟩⟩
   · refine ⟨by simp, fun h => NF_of_append (c := c) (by simp) ⟨[⟨.nodePatchLock, .other⟩], by simp⟩ h⟩
@@ -561,9 +561,7 @@ theorem livenessLaunch_errs (f : Faults) (c : Ctx) :
   unfold livenessLaunch
   split; · simp
   split; · simp
-  simp only []
-  split; · simp
-  split <;> simp
+  exact ⟨timeoutDelete_errs f c, by simp⟩
 
 theorem liveness_errs (f : Faults) (c : Ctx) :
     (c.errs = true → (liveness f c).errs = true) ∧ (NF c → NF (liveness f c)) := by
@@ -574,9 +572,7 @@ theorem liveness_errs (f : Faults) (c : Ctx) :
     have h1 := livenessLaunch_errs f c
     split; · exact h1
     split; · simpa using h1
-    split
-    · simpa using h1
-    · simp [h1.2]
+    exact ⟨fun h => timeoutDelete_errs f _ (h1.1 h), by simp [h1.2]⟩
   exact ⟨key.1, fun h => NF_of_append key.2 (by obtain ⟨r, hr, _⟩ := liveness_calls f c; exact ⟨r, hr⟩) h⟩
 
 /-- an error returned by a sub-reconciler is the reconcile's result, unless an API write said NotFound -/
